@@ -30,6 +30,11 @@ def gen(rng, tier="quick", prop="C20"):
     elif w == "H":
         p = WH.gen(rng, "quick", "C16")
         p["ops"] = p["ops"][:6]
+        for op in p["ops"]:  # coarse meshes only: the interpreted replica needs minutes per call on fine ones
+            if op["op"] == "body" and op["kind"] in ("cylinder", "capsule"):
+                n = 2 * math.pi * op["params"]["radius"] / op["params"]["hint"]
+                if n > 16:
+                    op["params"]["hint"] = 2 * math.pi * op["params"]["radius"] / rng.choice([6, 8, 10])
     else:
         p = WE.gen(rng, tier, "C20")
     p["cfg"]["origin_world"] = w
@@ -138,7 +143,8 @@ def cmp_K(op, a, b, ctx):
                     if min(da, db) < 300.0:
                         return "clip differs: %r vs %r" % (da, db)
                 elif da != MAX_FLOAT and not (abs(da - db) <= 2 * tol or (math.isnan(da) and math.isnan(db))):
-                    return "%s distance %.9g vs %.9g (allowed %.3g)" % (fn, da, db, 2 * tol)
+                    return "%s(%s, %s) distance %.9g vs %.9g (allowed %.3g)" % (
+                        fn, ea["spec"]["kind"], eb["spec"]["kind"], da, db, 2 * tol)
             if "b" in ra and "b" in rb and ra["b"] != rb["b"]:
                 clr = None
                 for t in (a.get("tw"), b.get("tw")):
@@ -239,6 +245,10 @@ def compare(plan, ja, jb):
     oa, ob = ja["obs"], jb["obs"]
     for k, op in enumerate(plan["ops"]):
         a, b = oa[k], ob[k]
+        if a is not None and "lines" in a:
+            a = {kk: vv for kk, vv in a.items() if kk != "lines"}
+        if b is not None and "lines" in b:
+            b = {kk: vv for kk, vv in b.items() if kk != "lines"}  # the line clock runs in the interpreted replica only
         if a is None or b is None:
             if (a is None) != (b is None):
                 who = "compiled" if a is None else "interpreted"
